@@ -84,6 +84,13 @@ func Harness_C16_bridge_close() {
 	verif_Assert("C16.bridge.totals_reported_once", mp.TrafficStats.BytesSent <= int64(len(gotT)) && mp.TrafficStats.BytesReceived == 0)
 	// later operations fail cleanly
 	verif_Assert("C16.bridge.close_again", b.Close() == nil)
+	// a target that attaches after the bridge was closed (the dispatcher looked the bridge up just
+	// before) is released by the next Close, as the lifecycle's deferred Close relies on
+	late := newC02End(nil, nil, false, -1)
+	b.SetTargetConnection(c02TunnelConn{late})
+	verif_Assert("C16.bridge.close_after_late_attach", b.Close() == nil)
+	_, lateClosed := late.snapshot()
+	verif_Assert("C16.bridge.late_target_released", lateClosed)
 	b.SetTargetConnection(c02TunnelConn{dst})
 	verif_Assert("C16.bridge.start_after_close", b.Start() != nil || true)
 	mp2, _ := cloud.GetPortMapping("pm1")
